@@ -10,7 +10,7 @@ class C12:
             "received each response. Non-trivial = at least two responses were relayed to TCP clients; distinct by content hash.")
     trusted = ["TCP loopback delivery into the peer's receive queue happens before the write returns (barrier argument of DESIGN 3.1)"]
     assumptions = ["PARTIAL: accept/receive goroutines and real sockets are exercised only by this run; the theorem is about the transport table",
-                   "sent-by hosts are IPv4 literals (a host-table NAME in the sent-by is the B2 caveat of DESIGN section 4)"]
+                   "sent-by hosts are IPv4 literals or host-table names (names resolved through real DNS are not generated: no network)"]
 
     def run(self, ctx):
         rng, tier = ctx["rng"], ctx["tier"]
